@@ -83,6 +83,46 @@ RestoreOK(r) ==
   \* ... and then they do disappear (in every directory restore works in)
   /\ \A p \in (PreP \ SP) \cap AP : ~MustRemove(p)
 
+----------------------------------------------------------------------------
+(* C27: one `restic rewrite` of one snapshot.                                              *)
+(*   r.sel      [mode, pats, ipats]   (mode include | exclude)                             *)
+(*   r.snap     entries of the original snapshot [p, t, size]                              *)
+(*   r.changed  a new snapshot was written (its "original" is the rewritten snapshot)      *)
+(*   r.new      entries of the new snapshot (of the original one when not changed)         *)
+(*              [p, t, same]: same = node metadata and content ids equal the original's    *)
+(*   r.origkept the original snapshot is still there with its tree                         *)
+(*   r.extra    number of snapshots that appeared besides the new one (must be 0)          *)
+(*   r.sumfiles, r.sumbytes   summary statistics of the new snapshot                       *)
+(*   r.err      the command failed                                                         *)
+
+RECURSIVE SumSize(_)
+SumSize(es) == IF es = {} THEN 0 ELSE LET e == CHOOSE x \in es : TRUE IN e.size + SumSize(es \ {e})
+
+RewriteOK(r) ==
+  LET S      == ToSet(r.snap)
+      Match  == {s \in S : Hit(r.sel, s.p)}                \* entries matching a pattern
+      R      == {s \in S : Selected(r.sel, s.p)}
+      RP     == {s.p : s \in R}
+      \* exclude: the original minus the matching entries with their contents;
+      \* include: the matching entries and the directories leading to them
+      Kept   == IF r.sel.mode = "exclude" THEN R
+                ELSE R \cup {s \in S : s.t = "dir" /\ \E x \in RP : IsAncestor(s.p, x)}
+      N      == ToSet(r.new)
+      Files  == {s \in Kept : s.t = "file"}
+  IN
+  /\ ~r.err
+  /\ r.origkept /\ r.extra = 0
+  /\ IF Match = {} \/ Kept = S
+     THEN \* a rewrite that matches nothing (or removes nothing) leaves the snapshot unchanged
+          /\ ~r.changed
+          /\ {[p |-> n.p, t |-> n.t] : n \in N} = {[p |-> s.p, t |-> s.t] : s \in S}
+     ELSE /\ r.changed
+          /\ {[p |-> n.p, t |-> n.t] : n \in N} = {[p |-> s.p, t |-> s.t] : s \in Kept}
+          /\ \A n \in N : n.same                            \* kept entries keep metadata and data
+          /\ r.sumfiles = Cardinality(Files)
+          /\ r.sumbytes = SumSize(Files)
+
 \* the drivers add r.op
 RecOK(r) == CASE r.op = "restore" -> RestoreOK(r)
+              [] r.op = "rewrite" -> RewriteOK(r)
 =============================================================================
